@@ -13,6 +13,7 @@
 import VarlinkProofs.Lemmas.Gen
 import VarlinkProofs.Lemmas.GenTyped
 import VarlinkProofs.Lemmas.GenTop2
+import VarlinkProofs.Lemmas.GenTyped2
 namespace Varlink.C07
 open Varlink Varlink.Idl Varlink.Gen
 
@@ -235,6 +236,27 @@ theorem gen_topLevelOk (t : Idl) (f : GoFile) (h : Domain t = true) (hf : genFil
   · simpa [Member.name] using this.1.1
   · simpa [Member.name] using this.1.1
 
+/-- the facts about names the domain provides -/
+theorem topFacts_of_domain (t : Idl) (h : Domain t = true) : TopFacts t := by
+  obtain ⟨h1, h2, _, _, _, _, _, h8, _⟩ := domain_parts h
+  simp only [nameShapes, Bool.and_eq_true, List.all_eq_true] at h1
+  simp only [noReserved, List.all_eq_true] at h8
+  refine ⟨fun m hm => (h1.2 m hm).1, (uniqueNames_iff_nodup _).mp h2, ?_, h1.1⟩
+  intro m hm
+  have := h8 m hm
+  cases m <;> simp only [memberNotReserved, Bool.and_eq_true, Bool.not_eq_true'] at this
+  · simpa [Member.name] using this
+  · simpa [Member.name] using this.1.1
+  · simpa [Member.name] using this.1.1
+
+/-- **assignments, conversions, selectors, the dispatcher's call**: every assignment the generator emits between a
+    tagged struct (`in`, `out`, the error types) and the untagged parameters / results is between identical types
+    or goes through a conversion between types that are identical ignoring tags (pointer types parenthesised);
+    every selector `in.<F>`, `out.<F>`, `e.<F>` names a field; the dispatcher calls the interface method with
+    arguments of exactly its parameter types -/
+theorem gen_typedOk (t : Idl) (f : GoFile) (h : Domain t = true) (hf : genFile t = some f) : typedOk f = true :=
+  typedOk_genFile t f (memberGood_of_domain t h) (topFacts_of_domain t h) hf
+
 /-- **conversions**: for every description type the tagged rendering (`json:"…"` on every field, used for the
     structs that are encoded) and the untagged rendering (used in signatures) are identical ignoring struct
     tags at every depth — exactly Go's condition for the explicit conversions the generator emits; a pointer
@@ -277,20 +299,18 @@ theorem fullStatement_fails : ¬ FullStatement := by
   decide
 
 /-- **gen_wellformed_partial**: what is proved of `FullStatement`. Proved from the domain alone: `pkgOk` (given the
-    package name is no keyword / `main`), `topLevelOk`, `typesOk`, `scopesOk`. The remaining sub-checks of
-    `wellFormed` enter as hypotheses: `importsOk` (the generator's substring test for imports is a known finding),
-    `namesResolve`, `methodsOk`, `typedOk` (its input-dependent core is `conversions_welltyped` and
-    `copies_*_welltyped` above; what is missing is the bookkeeping that the function bodies' variables have the
-    types those lemmas assume) and `noCycleOk`. Every run of the correspondence evaluates `wellFormed` on every
+    package name is no keyword / `main`), `topLevelOk`, `typesOk`, `scopesOk`, `typedOk`. The remaining sub-checks
+    of `wellFormed` enter as hypotheses: `importsOk` (the generator's substring test for imports is a known
+    finding), `namesResolve`, `methodsOk` and `noCycleOk`. Every run of the correspondence evaluates `wellFormed` on every
     generated description of the domain and compares it with the Go compiler (DIFF `theorem-contradicted` /
     `model-wellformed-but-compiler-rejects` / `model-rejects-but-compiles`). -/
 theorem gen_wellformed_partial (t : Idl) (f : GoFile) (h : Domain t = true) (hk : pkgNameUsable t = true)
     (hf : genFile t = some f)
     (h_imports : importsOk f = true) (h_names : namesResolve f = true)
-    (h_methods : methodsOk f = true) (h_typed : typedOk f = true) (h_cycle : noCycleOk f = true) :
+    (h_methods : methodsOk f = true) (h_cycle : noCycleOk f = true) :
     wellFormed f = true := by
   simp [wellFormed, gen_pkgOk t f h hk hf, gen_typesOk t f h hf, gen_scopesOk t f h hf, gen_topLevelOk t f h hf,
-    h_imports, h_names, h_methods, h_typed, h_cycle]
+    gen_typedOk t f h hf, h_imports, h_names, h_methods, h_cycle]
 
 /-- the domain hypotheses of the partial theorem are satisfiable (`sample` uses an alias, an optional, an array of
     structs and an error); that the sample's file passes the six assumed sub-checks is evaluated by the compiled
